@@ -20,7 +20,7 @@ def dump_graph(proj, workdir):
     rc, out, err = run([B + '/harness', 'init-dump', proj, workdir + '/graph.txt'], timeout=900, env=dict(ENV, HOME=workdir))
     if rc != 0:
         raise RuntimeError('init-dump failed: ' + err.decode(errors='replace')[-300:])
-    nodes = [scan.parse_kv(l.rstrip('\n')) for l in open(workdir + '/graph.txt') if l.startswith('NODE ')]
+    nodes = [scan.parse_kv(l.rstrip('\n')) for l in sorted(open(workdir + '/graph.txt')) if l.startswith('NODE ')]
     return nodes
 
 
